@@ -42,18 +42,23 @@ pub enum Case {
     /// another world's case executed inside private rayon pools of different sizes (and outside any): whatever
     /// the library parallelises internally must not make results depend on the worker count
     PoolRepeat { inner: Box<cases::Case>, threads: Vec<usize>, seed: u64, hash_seed: u64 },
+    /// another world's case executed on a fresh thread, and again on a thread (and in a process) that has
+    /// just executed a different case of the same world: hidden state (statics, thread-locals, caches keyed
+    /// too coarsely) must not carry over from one simulation to the next
+    HistoryRepeat { inner: Box<cases::Case>, before: Box<cases::Case>, seed: u64, hash_seed: u64 },
 }
 
 impl Case {
     pub fn hash_seed(&self) -> u64 {
         match self {
-            Case::Schedules { hash_seed, .. } | Case::HashRepeat { hash_seed, .. } | Case::Rayon { hash_seed, .. } | Case::PoolRepeat { hash_seed, .. } => *hash_seed,
+            Case::Schedules { hash_seed, .. } | Case::HashRepeat { hash_seed, .. } | Case::Rayon { hash_seed, .. } | Case::PoolRepeat { hash_seed, .. } | Case::HistoryRepeat { hash_seed, .. } => *hash_seed,
         }
     }
     pub fn size(&self) -> usize {
         match self {
             Case::Schedules { sims, workers, iters, .. } => sims.len() * 4 + workers + iters / 4 + sims.iter().map(|s| s.n_steps / 8).sum::<usize>(),
             Case::HashRepeat { inner, .. } | Case::PoolRepeat { inner, .. } => inner.size(),
+            Case::HistoryRepeat { inner, before, .. } => inner.size() + before.size(),
             Case::Rayon { sims, threads, .. } => sims.len() * 4 + threads,
         }
     }
@@ -84,7 +89,13 @@ fn gen_sims(rng: &mut Rng, max_n: usize) -> Vec<SimSpec> {
 }
 
 pub fn generate(rng: &mut Rng, _focus: &str, thorough: bool) -> Case {
-    match rng.below(12) {
+    match rng.below(14) {
+        12..=13 => {
+            let inner_prop = *rng.pick(&["C10", "C10", "C14", "C03", "C04", "C02"]);
+            let inner = cases::generate_world(inner_prop, "C18", rng, thorough);
+            let before = cases::generate_world(inner_prop, "C18", rng, thorough);
+            Case::HistoryRepeat { inner: Box::new(inner), before: Box::new(before), seed: rng.next(), hash_seed: rng.next() }
+        }
         10..=11 => {
             // consists (pt), trains (trn) and dispatch scenarios (dsp): everything built on top of a consist
             let inner_prop = *rng.pick(&["C10", "C10", "C14", "C03", "C04"]);
@@ -339,6 +350,28 @@ pub fn execute(case: &Case, ctx: &mut Ctx) {
             }
             ctx.nontrivial = sims.len() >= 2 && *threads >= 2;
         }
+        Case::HistoryRepeat { inner, before, seed, .. } => {
+            ctx.class.push(format!("thr:history:{}", inner.world_name()));
+            ctx.layer = "history-repeat";
+            let fp = |c: &Ctx| (c.trace.0, c.viol.len(), c.sim_s.to_bits(), c.counters.get("stat.steps").copied().unwrap_or(0));
+            let t = std::time::Duration::from_secs(90);
+            match (crate::run_case_after(inner, None, *seed, None, t), crate::run_case_after(inner, Some(before), *seed, None, t), crate::run_case_after(inner, Some(inner), *seed, None, t)) {
+                (Some(alone), Some(after), Some(twice)) => {
+                    ctx.hit("fault.history.other_case_first");
+                    ctx.hit("stat.history_triples");
+                    ctx.sim_s += alone.sim_s;
+                    ctx.trace.u(alone.trace.0);
+                    ctx.nontrivial = alone.nontrivial;
+                    if fp(&alone) != fp(&after) {
+                        ctx.violate("C18", "repeat", "same inputs after another simulation on the same thread => identical outputs", format!("{}: alone vs after another case: trace {:x} vs {:x}, violations {} vs {}, simulated seconds {} vs {}", inner.world_name(), alone.trace.0, after.trace.0, alone.viol.len(), after.viol.len(), alone.sim_s, after.sim_s));
+                    }
+                    if fp(&alone) != fp(&twice) {
+                        ctx.violate("C18", "repeat", "same inputs twice on the same thread => identical outputs", format!("{}: first vs second execution on one thread: trace {:x} vs {:x}, violations {} vs {}", inner.world_name(), alone.trace.0, twice.trace.0, alone.viol.len(), twice.viol.len()));
+                    }
+                }
+                _ => ctx.hit("stat.history_run_hang"),
+            }
+        }
         Case::PoolRepeat { inner, threads, seed, .. } => {
             ctx.class.push(format!("thr:pool:{}:{:?}", inner.world_name(), threads));
             ctx.layer = "pool-repeat";
@@ -421,6 +454,15 @@ pub fn shrink(case: &Case) -> Vec<Case> {
             let dummy = Violation { property: "".into(), monitor: "".into(), clause: "".into(), layer: "".into(), event: 0, detail: "".into(), sig: Sig::new() };
             for c in cases::shrink(inner, &dummy) {
                 out.push(Case::HashRepeat { inner: Box::new(c), seed_a: *seed_a, seed_b: *seed_b, hash_seed: *hash_seed });
+            }
+        }
+        Case::HistoryRepeat { inner, before, seed, hash_seed } => {
+            let dummy = Violation { property: "".into(), monitor: "".into(), clause: "".into(), layer: "".into(), event: 0, detail: "".into(), sig: Sig::new() };
+            for c in cases::shrink(before, &dummy) {
+                out.push(Case::HistoryRepeat { inner: inner.clone(), before: Box::new(c), seed: *seed, hash_seed: *hash_seed });
+            }
+            for c in cases::shrink(inner, &dummy) {
+                out.push(Case::HistoryRepeat { inner: Box::new(c), before: before.clone(), seed: *seed, hash_seed: *hash_seed });
             }
         }
         Case::PoolRepeat { inner, threads, seed, hash_seed } => {
